@@ -51,8 +51,8 @@ theorem qinv_stepB {nat : List (Nat × Nat)} {h : Hist} {s : Sys} (q : QInv nat 
     · intro m hm v hv
       have hmem := mem_dgramsOf_stun hd hm
       obtain ⟨_, _, _, h4⟩ := step_out_nom s.b ev d.src d.dst m v hmem hv
-      have := issueOf_controlling h4
-      rw [hs6] at this; cases this
+      rw [issuesOf_controlled s.b ev hp3] at h4
+      cases h4
   · rw [agentEv_b_true, hstepB_accepted]; exact hbinv.lastB
   · rw [agentEv_b_true, hstepB_accepted, hstepB_issued]; exact hbinv.accB
   · rw [agentEv_b_true]; exact hbinv.defB
